@@ -57,7 +57,7 @@ type World struct {
 	// (several timers of library code expire at the same simulated instant and the runtime wakes them in no fixed
 	// order); the determinism probe then only reports, and replays are confirmed by oracle rule.
 	TimerRaces string
-	Mode     string // "acct": run another property's world but judge only the acct- rules (C13)
+	Mode       string // "acct": run another property's world but judge only the acct- rules (C13)
 	// Gen draws a case from the tape. The result must be JSON-marshalable.
 	Gen func(t *tape.Tape, tier string) any
 	// Run executes the case inside the bubble and reports through env.
@@ -243,6 +243,7 @@ func RunOne(t *testing.T, w *World, o RunOpts) *RunResult {
 	t.Run(fmt.Sprintf("%s/%d", w.Name, o.Seed), func(t *testing.T) {
 		cryptotest.SetGlobalRandom(t, o.Seed)
 		verifsync.SeedRand(o.Seed)
+		verifsync.SeedTimers(o.Seed)
 		// seeded preemption points inside the system under test (build rule R8): off in half of the runs
 		verifsync.SeedPoints(o.Seed, []uint64{0, 8, 0, 64, 0, 512, 0, 4096}[o.Seed%8])
 		defer verifsync.SeedPoints(0, 0)
